@@ -179,11 +179,6 @@ def cases_of(struct, values):
 
 # ------------------------------------------------------------------ checks
 
-def special_chars(*vals):
-    s = sorted({c for v in vals if v for c in v if not c.isalnum()})
-    return ''.join(s).replace(' ', 'SP') or 'plain'
-
-
 def char_category(values, ladder=('non-ascii', 'space', 'punctuation')):
     """Coarsest description of the unusual characters in *values*."""
     cats = set()
@@ -213,19 +208,22 @@ def judge_tokens(fields):
     if not raw:
         return []
     b = raw[0]
-    varied = [f for f in fields if fields[f] != DEFAULT[f]]
+    varied = [f for f in FIELDS
+              if f in fields and fields[f] != DEFAULT[f]]
     needed = []
     for f in varied:
         calm = dict(fields)
         calm[f] = DEFAULT[f]
         if b['clause'] not in [x['clause'] for x in check_tokens(calm)]:
             needed.append(f)
-    needed = needed or varied
+    if not needed:
+        # fails whatever the values: a property of the structure
+        b['cls'] = f"{b['clause']}:{b['differing']}:any-value"
+        return [b]
     cat = char_category([fields[f] for f in needed if f != 'job'])
-    if 'job' in needed and needed == ['job']:
+    if needed == ['job']:
         cat = 'job=' + fields['job']
-    b['cls'] = (f"{b['clause']}:{b['differing']}:"
-                f"{'+'.join(needed) or 'structure'}:{cat}")
+    b['cls'] = f"{b['clause']}:{b['differing']}:{'+'.join(needed)}:{cat}"
     return [b]
 
 
@@ -351,21 +349,45 @@ def legacy_text(case):
     return s + (':' + case['sel'] if case['sel'] else '')
 
 
-def legacy_trait(case):
-    """Which part of a legacy identifier is unusual (coarse)."""
-    if len(case['cycle']) == 1:
-        return 'single-character-cycle'
+PLAIN = {'cycle': '10', 'task': 't', 'sel': None}
+
+
+def legacy_trait(case, stage):
+    """The parts of a legacy identifier whose value is needed for it to
+    fail at *stage* (each tried with a plain replacement), described
+    coarsely."""
+    needed = []
+    for part in ('cycle', 'task', 'sel'):
+        if case[part] == PLAIN[part]:
+            continue
+        calm = {**case, part: PLAIN[part]}
+        if stage not in [x['stage'] for x in check_legacy(calm)]:
+            needed.append(part)
     out = []
-    cyc = char_category(
-        [case['cycle']], ('non-ascii', 'space', 'punctuation', 'letter'))
-    if cyc != 'alphanumeric':
-        out.append(f'cycle-with-{cyc}')
-    tsk = char_category([case['task']])
-    if tsk != 'alphanumeric':
-        out.append(f'task-with-{tsk}')
-    if case['sel']:
-        out.append('selector-with-' + char_category([case['sel']]))
-    return '+'.join(out) or 'plain'
+    for part in needed or [p for p in PLAIN if case[p] != PLAIN[p]]:
+        v = case[part]
+        if part == 'cycle' and len(v) == 1:
+            out.append('single-character-cycle')
+        elif part == 'cycle':
+            out.append('cycle-with-' + char_category(
+                [v], ('non-ascii', 'space', 'punctuation', 'letter')))
+        elif part == 'task':
+            out.append('task-with-' + char_category([v]))
+        else:
+            out.append('selector')
+    return '+'.join(out) or 'any'
+
+
+def judge_legacy(case, partner=None):
+    """First failure of one legacy identifier (or list) with its class."""
+    raw = check_legacy(case, partner)
+    if not raw:
+        return []
+    b = raw[0]
+    culprit = b.pop('culprit')
+    b['cls'] = (f"legacy-{culprit['form']}:{b['stage']}:"
+                f"{legacy_trait(culprit, b['stage'])}")
+    return [b]
 
 
 def legacy_want(case):
@@ -395,9 +417,8 @@ def check_legacy(case, partner=None):
         bad.append({
             'kind': 'legacy', 'case': case, 'partner': partner,
             'step': step, 'got': got, 'want': wanted,
-            'text': legacy_text(case),
-            'cls': f"legacy-{culprit['form']}:{stage}:"
-                   f"{legacy_trait(culprit)}"})
+            'text': legacy_text(case), 'stage': stage,
+            'culprit': culprit})
 
     def recognition(c):
         """None if legacy_tokenise gives the right tokens, else
@@ -512,7 +533,7 @@ def _work_legacy(job):
         n['single_char_cycles'] += len(case['cycle']) == 1
         n['dotted_tasks'] += '.' in case['task']
         n['with_selector'] += case['sel'] is not None
-        keep(bad, check_legacy(case))
+        keep(bad, judge_legacy(case))
     return n, bad
 
 
@@ -554,7 +575,7 @@ def run(ctx: Ctx) -> Result:
     pairs = legacy_pairs()
     pb = {}
     for a, b in pairs:
-        keep(pb, check_legacy(b, partner=a))
+        keep(pb, judge_legacy(b, partner=a))
     fold({'pairs': len(pairs)}, pb, leg)
 
     for what, count in {
@@ -638,7 +659,7 @@ def describe(b):
 def replay(payload):
     _quiet()
     if payload['kind'] == 'legacy':
-        bad = check_legacy(payload['case'], partner=payload.get('partner'))
+        bad = judge_legacy(payload['case'], payload.get('partner'))
     else:
         bad = judge_tokens(payload['fields'])
     return [Violation(b['cls'], describe(b), b) for b in bad
